@@ -66,7 +66,7 @@ def WL (sl : Nat → Cell) : Option Cell → Nat → Shape → Prop
   | _, k, .subject ds => WLs sl (k + 2) ds
   | g, k, .behavior d => WL sl g (k + 1) d
   | g, k, .share d => WL sl g (k + 1) d
-  | _, k, .task h d => WL sl (some (k + 1 + h)) (k + 2 + h) d
+  | _, k, .task _ h d => WL sl (some (k + 1 + h)) (k + 2 + h) d
 def WLs (sl : Nat → Cell) : Nat → Shapes → Prop
   | _, .nil => True
   | k, .cons d ds => WL sl (some k) (k + 1) d ∧ WLs sl (k + 1 + cells d) ds
@@ -95,7 +95,7 @@ theorem deliver_guarded (sl : Nat → Cell) : ∀ (d : Shape) (kd : Kind) (n k :
   | .fin d, kd, n, k, g, hs, hw, hg => by
     cases kd <;> simp only [deliver]
     · exact deliver_guarded sl d .next n (k + 1) g hs hw hg
-    · exact GuardedK.append (deliver_guarded sl d .term n (k + 1) g hs hw hg)
+    · exact GuardedK.append (deliver_guarded sl d (.term _) n (k + 1) g hs hw hg)
         (GuardedK.sect (gk_atom _ _ _))
     · exact deliver_guarded sl d .fin n (k + 1) g hs hw hg
   | .subject ds, kd, n, k, g, hs, hw, _ => by
@@ -103,20 +103,23 @@ theorem deliver_guarded (sl : Nat → Cell) : ∀ (d : Shape) (kd : Kind) (n k :
     · exact GuardedK.append (GuardedK.sect (gk_sect_nil _ _ _))
         (GuardedK.sect (bcast_guarded sl ds .next n (k + 2) _ hw))
     · exact GuardedK.append (GuardedK.sect (gk_sect_nil _ _ _))
-        (GuardedK.sect (bcast_guarded sl ds .term n (k + 2) _ hw))
+        (GuardedK.sect (bcast_guarded sl ds (.term _) n (k + 2) _ hw))
     · exact gk_sect_nil _ _ _
   | .behavior d, kd, n, k, g, hs, hw, hg => by
     cases kd <;> simp only [deliver]
     · exact GuardedK.append (GuardedK.sect (gk_atom _ _ _))
         (deliver_guarded sl d .next n (k + 1) g hs hw hg)
-    · exact deliver_guarded sl d .term n (k + 1) g hs hw hg
+    · exact deliver_guarded sl d (.term _) n (k + 1) g hs hw hg
     · exact deliver_guarded sl d .fin n (k + 1) g hs hw hg
   | .share d, kd, n, k, g, hs, hw, hg => by
     simp only [deliver]; exact deliver_guarded sl d kd n (k + 1) g hs hw hg
-  | .task h d, kd, n, k, g, hs, hw, _ => by
+  | .task dl h d, kd, n, k, g, hs, hw, _ => by
     cases kd <;> simp only [deliver]
     · exact GuardedK.append (gk_sect_nil _ _ _) (gk_sect_nil _ _ _)
-    · exact GuardedK.append (gk_sect_nil _ _ _) (gk_sect_nil _ _ _)
+    · split
+      · exact GuardedK.sect (deliver_guarded sl d (.term _) n (k + 2 + h) (some (k + 1 + h)) _ hw
+          (fun c hc => by cases hc; exact List.mem_cons_self))
+      · exact GuardedK.append (gk_sect_nil _ _ _) (gk_sect_nil _ _ _)
     · exact GuardedK.sect (deliver_guarded sl d .fin n (k + 2 + h) (some (k + 1 + h)) _ hw
         (fun c hc => by cases hc; exact List.mem_cons_self))
 theorem bcast_guarded (sl : Nat → Cell) : ∀ (ds : Shapes) (kd : Kind) (n k : Nat)
@@ -128,7 +131,7 @@ theorem bcast_guarded (sl : Nat → Cell) : ∀ (ds : Shapes) (kd : Kind) (n k :
     have hr := fun kd' => bcast_guarded sl ds kd' n (k + 1 + cells d) hs hw.2
     cases kd <;> simp only [bcast]
     · exact GuardedK.append (GuardedK.sect (hd .next)) (hr .next)
-    · exact GuardedK.append (GuardedK.sect (hd .term)) (hr .term)
+    · exact GuardedK.append (GuardedK.sect (hd (.term _))) (hr (.term _))
     · exact GuardedK.append (GuardedK.append (GuardedK.sect (hd .fin)) (gk_sect_nil _ _ _))
         (hr .fin)
 end
